@@ -4,6 +4,7 @@ import (
 	"context"
 	"net"
 	"net/http"
+	"time"
 
 	"github.com/IrineSistiana/mosproxy/internal/dnsmsg"
 	"github.com/IrineSistiana/mosproxy/internal/verifrt"
@@ -417,4 +418,80 @@ func vEchoServer(c *vNetConn, isTCP bool) {
 		}
 		c.inbox <- r
 	}
+}
+
+// VerifH_C14_SilentPooledConnection: "when a connection dies, every exchange waiting on it fails or is retried promptly
+// instead of waiting out its deadline". A pooled pipelined connection goes silent without FIN/RST (the peer keeps
+// reading, never answers again); the only way to notice is the idle read time-out: nothing RECEIVED for 10 s. Under a
+// harness-controlled clock with deadlines kept as instants: the last reply arrived at t=0; at t=6 s and again at t=9 s
+// exchanges (no caller deadline) are written to the silent connection; at t=10 s nothing has been received for the
+// idle time-out, whatever was SENT meanwhile: the connection is given up, the waiting exchanges are retried on a fresh
+// connection to the healthy server and succeed — they are not left waiting.
+func VerifH_C14_SilentPooledConnection() {
+	verifrt.Unwind(160)
+	verifrt.SchedBound(1)
+	verifrt.NoTimers()
+	verifrt.CtxNoExpiry = true
+	verifrt.Expect("retried")
+	base := time.Unix(1700000000, 0)
+	offset := time.Duration(0)
+	verifrt.Redirect("time.Now", func() time.Time { return base.Add(offset) })
+	isTCP := verifrt.Bool("tcp")
+	var conns []*vNetConn
+	tr := NewPipelineTransport(PipelineOpts{IsTCP: isTCP, IdleTimeout: 10 * time.Second, DialContext: func(ctx context.Context) (net.Conn, error) {
+		c := newVNetConn()
+		c.clocked = true
+		first := len(conns) == 0
+		conns = append(conns, c)
+		go func() {
+			answered := 0
+			for {
+				var q []byte
+				select {
+				case q = <-c.outbox:
+				case <-c.closedCh:
+					return
+				}
+				if first && answered >= 1 {
+					continue // the first connection's server reads on but never answers again
+				}
+				answered++
+				off := 0
+				if isTCP {
+					off = 2
+				}
+				r := []byte{q[off], q[off+1], 0x80, q[off+3] & 0xF, 0, 0, 0, 0, 0, 0, 0, 0}
+				if isTCP {
+					r = append([]byte{0, 12}, r...)
+				}
+				c.inbox <- r
+			}
+		}()
+		return c, nil
+	}})
+	r0, err0 := tr.ExchangeContext(context.Background(), vQuery12(1, 1))
+	verifrt.Assert(err0 == nil && r0 != nil && r0.Header.RCode == 1, "first exchange answered (at t = 0)")
+	verifrt.Quiesce()
+	type exRes struct {
+		m   *dnsmsg.Msg
+		err error
+	}
+	resA, resB := make(chan exRes, 1), make(chan exRes, 1)
+	offset = 6 * time.Second
+	go func() { m, err := tr.ExchangeContext(context.Background(), vQuery12(2, 2)); resA <- exRes{m, err} }()
+	verifrt.Quiesce()
+	offset = 9 * time.Second
+	go func() { m, err := tr.ExchangeContext(context.Background(), vQuery12(3, 3)); resB <- exRes{m, err} }()
+	verifrt.Quiesce()
+	verifrt.Assert(len(conns) == 1 && conns[0].nWrites == 3, "both queries went out on the pooled connection, which stays silent")
+	offset = 10 * time.Second
+	for _, c := range conns {
+		c.Tick()
+	}
+	verifrt.Quiesce()
+	a, b := <-resA, <-resB
+	verifrt.Reach("retried")
+	verifrt.Assert(a.err == nil && a.m != nil && a.m.Header.ID == 2 && a.m.Header.RCode == 2, "10 s without receiving anything: the silent connection is given up and the waiting exchange succeeds on a fresh one")
+	verifrt.Assert(b.err == nil && b.m != nil && b.m.Header.ID == 3 && b.m.Header.RCode == 3, "and so does the other")
+	verifrt.Assert(conns[0].closed && len(conns) == 2, "the silent connection was closed and replaced")
 }
